@@ -1,10 +1,51 @@
-/- Line-protocol handlers for C15 (placeholder until the property is built). -/
-import PandoraModel.Model.Basic
+/- Line-protocol handlers for the multiscale model (C15). -/
+import PandoraModel.Model.Multiscale
 
 namespace Pandora.Driver.C15
 open Lean (Json)
+open Pandora Pandora.Multiscale
 
-def handle (op : String) (_j : Json) : Except String Json :=
-  throw s!"unknown op {op}"
+def sizes (j : Json) : Except String Json := do
+  let n ← field j "n" >>= natOfJson
+  let f ← field j "f" >>= natOfJson
+  let k ← field j "num_scales" >>= natOfJson
+  return listToJson natToJson (levelSizes n f k)
+
+def bounds (j : Json) : Except String Json := do
+  let user ← field j "user" >>= ratOfJson
+  let f ← field j "f" >>= natOfJson
+  let ns ← field j "num_scales" >>= natOfJson
+  let k ← field j "k" >>= natOfJson
+  return ratToJson (boundAfter user f ns k)
+
+def next (j : Json) : Except String Json := do
+  let disp ← field j "disp" >>= gridOfJson valOfJson
+  let flags ← field j "flags" >>= gridOfJson natOfJson
+  let w ← field j "window_size" >>= natOfJson
+  let marge ← field j "marge" >>= natOfJson
+  let f ← field j "f" >>= natOfJson
+  let umin ← field j "user_min" >>= ratOfJson
+  let umax ← field j "user_max" >>= ratOfJson
+  let fr ← field j "fine_rows" >>= natOfJson
+  let fc ← field j "fine_cols" >>= natOfJson
+  let (mn, mx) := nextLevelGrids disp flags w marge f umin umax fr fc
+  let rows := disp.length
+  let cols := (disp.getD 0 []).length
+  -- specification, evaluated per fine pixel from the statement
+  let specMin : Grid Val := (List.range fr).map fun i => (List.range fc).map fun jj =>
+    (specInterval disp flags w marge f umin umax (zoomIndex rows f i) (zoomIndex cols f jj)).1
+  let specMax : Grid Val := (List.range fr).map fun i => (List.range fc).map fun jj =>
+    (specInterval disp flags w marge f umin umax (zoomIndex rows f i) (zoomIndex cols f jj)).2
+  let near := (List.range fr).all (fun i => parentNear rows f i) && (List.range fc).all (fun jj => parentNear cols f jj)
+  return mkObj [("min", gridToJson valToJson mn), ("max", gridToJson valToJson mx),
+                ("spec_min", gridToJson valToJson specMin), ("spec_max", gridToJson valToJson specMax),
+                ("parent_near", Json.bool near)]
+
+def handle (op : String) (j : Json) : Except String Json :=
+  match op with
+  | "C15.sizes" => sizes j
+  | "C15.bounds" => bounds j
+  | "C15.next" => next j
+  | _ => throw s!"unknown op {op}"
 
 end Pandora.Driver.C15
